@@ -550,6 +550,118 @@ pub fn run(cfg: &Cfg) -> i32 {
     corp.push(jo(vec![("corpus", js("limit sequences of 3 evaluations")), ("sequences", ji(nseq.load(Ordering::Relaxed)))]));
     nruns.fetch_add(nseq.load(Ordering::Relaxed) * 3, Ordering::Relaxed);
 
+    // (d) limits below what is already in use, and peaks inside meta blocks: the stack holds k items
+    //     when the limit is set; a meta block needs (k + peak of its body) cells at compile time
+    {
+        let bodies = ["10 20 30 drop drop drop", "1 2 3", "[ 1 2 3 ] unbox + +", "4 0 do I loop drop drop drop drop", "7"];
+        let base = boot();
+        let h0 = pt(&base).heap;
+        let mut n = 0u64;
+        for k in [0usize, 1, 3, 5] {
+            let mut start = base.clone();
+            for i in 0..k {
+                start.eval(&format!("{}", 100 + i)).unwrap();
+            }
+            for body in bodies {
+                // peak of the body measured by stepping it as ordinary code on an empty stack
+                let mut v = vec![];
+                let u = stepped(&base, body, None, &mut v).unwrap();
+                let peak = u.trace.iter().map(|p| p.stack).max().unwrap();
+                for src in [format!("#( {} #)", body), body.to_string()] {
+                    let need = k + peak;
+                    for s_lim in 0..=need + 2 {
+                        for drive in 0..2 {
+                            let mut xs = start.clone();
+                            xs.set_stack_limit(Some(s_lim)).unwrap();
+                            n += 1;
+                            let r = guarded(|| if drive == 0 { xs.eval(&src) } else { xs.compile(&src).and_then(|_| xs.run()) });
+                            let r = match r {
+                                Ok(r) => r,
+                                Err(pn) => {
+                                    rep.report_w("panic:stack-limit-below-usage", src.len() as u64, || jo(vec![("source", js(src.clone())), ("panic", js(pn))]));
+                                    continue;
+                                }
+                            };
+                            let after = pt(&xs);
+                            let lim = Lim::Stack(Some(s_lim));
+                            let cx = Ctx { rep: &rep, src: &src };
+                            if after.stack > s_lim.max(k) {
+                                cx.report("stack-exceeds-limit", lim, format!("{} items were on the stack when the limit was set; afterwards it holds {}", k, after.stack));
+                            }
+                            if s_lim < need && r.is_ok() {
+                                cx.report("stack-limit:not-enforced", lim, format!("{} items were on the stack when the limit was set and the source needs {} more at its deepest point, yet it ran to the end ({})", k, peak, if drive == 0 { "eval" } else { "compile+run" }));
+                            }
+                            if s_lim >= need + 2 && r.is_err() {
+                                cx.report("stack-limit:spurious-refusal", lim, format!("{} items + a peak of {}: {:?}", k, peak, r));
+                            }
+                        }
+                    }
+                }
+            }
+        }
+        // heap limits below the cells already in use: every allocation is refused, nothing else is
+        for h in [0usize, 1, h0 - 1, h0] {
+            for src in ["1 var hv", "5 let hl", ": hf 1 ; hf", "1 2 +"] {
+                let mut xs = base.clone();
+                xs.set_heap_limit(Some(h)).unwrap();
+                n += 1;
+                let r = guarded(|| xs.eval(src)).unwrap_or(Err(Xerr::InternalError));
+                let allocates = src.contains("var") || src.contains("let");
+                let cx = Ctx { rep: &rep, src };
+                if allocates && r.is_ok() {
+                    cx.report("heap-limit:not-enforced", Lim::Heap(Some(h)), format!("the heap already holds {} cells, the limit is {}, and `{}` still allocated", h0, h, src));
+                }
+                if !allocates && r.is_err() {
+                    cx.report("heap-limit:spurious-refusal", Lim::Heap(Some(h)), format!("`{}` allocates nothing but failed: {:?}", src, r));
+                }
+                if pt(&xs).heap > h0.max(h) {
+                    cx.report("heap-exceeds-limit", Lim::Heap(Some(h)), format!("heap grew to {}", pt(&xs).heap));
+                }
+            }
+        }
+        corp.push(jo(vec![("corpus", js("limits below current usage / meta-block peaks")), ("runs", ji(n))]));
+        nruns.fetch_add(n, Ordering::Relaxed);
+    }
+    // (e) the instruction budget is spent whatever becomes of the source: with a limit N set once,
+    //     every sequence of 4 sources prints at most N markers in total (a print costs an instruction)
+    {
+        let srcs = ["#( \"a\" print \"a\" print #) oops", "\"a\" print", "#( \"a\" print #)", "\"a\" print 1 0 /", ": m \"a\" print ; m m"];
+        let base = boot();
+        let mut n = 0u64;
+        let ns = srcs.len();
+        for limit in 0..=9usize {
+            for code in 0..ns.pow(4) {
+                let seq: Vec<usize> = (0..4).map(|i| (code / ns.pow(i)) % ns).collect();
+                for drive in 0..2 {
+                    let mut xs = base.clone();
+                    xs.set_insn_limit(Some(limit)).unwrap();
+                    let mut out = String::new();
+                    for si in &seq {
+                        let _ = guarded(|| if drive == 0 { xs.eval(srcs[*si]) } else { xs.compile(srcs[*si]).and_then(|_| xs.run()) });
+                        out.push_str(&xs.read_stdout().unwrap_or_default());
+                    }
+                    n += 1;
+                    let printed = out.matches('a').count();
+                    if printed > limit {
+                        let d: Vec<String> = seq.iter().map(|i| srcs[*i].to_string()).collect();
+                        rep.report_w("insn-limit:budget-refunded", (limit * 10 + d.join(" ").len()) as u64, || {
+                            jo(vec![
+                                ("kind", js("limit-sequence")),
+                                ("insn_limit_set_once", ji(limit)),
+                                ("sources", J::A(d.iter().map(|s| js(s.clone())).collect())),
+                                ("drive", js(if drive == 0 { "eval" } else { "compile+run" })),
+                                ("markers_printed", ji(printed)),
+                                ("what", js("every printed marker costs at least one instruction, so more markers than the limit were printed")),
+                            ])
+                        });
+                    }
+                }
+            }
+        }
+        corp.push(jo(vec![("corpus", js("instruction budget over sequences of 4 sources")), ("runs", ji(n))]));
+        nruns.fetch_add(n, Ordering::Relaxed);
+    }
+
     for need in ["insn:refused", "insn:resumed", "stack:refused", "heap:refused", "insn:sufficient"] {
         if stats.get(need) == 0 && !rep.has_unknown() {
             vacuous(&format!("vacuous: no case of class {}", need));
